@@ -32,6 +32,18 @@ func acquireSites(c *Ctx, m M, pkgPath string, f func(fn *ssa.Function, call *ss
 }
 
 func runC04(c *Ctx) {
+	runC04Pairing(c)
+	// C04.W1: view fields written only at construction / clone / close
+	c.Who("C04.W1", StoreTo(c.Field("C04.W1", "p.Iterator.seqNum")), "Iterator.seqNum fixed at construction",
+		"p.(*DB).newIter", "p.(*Iterator).CloneWithContext", "p.NewExternalIterWithContext", "p.(*DB).getInternal", "p.finishInitializingExternal", "p.(*Iterator).Close")
+	c.Who("C04.W1", Or(StoreTo(c.Field("C04.W1", "p.Iterator.readState")), StoreTo(c.Field("C04.W1", "p.Iterator.version"))), "Iterator's pinned view fixed at construction",
+		"p.(*DB).newIter", "p.(*Iterator).CloneWithContext", "p.NewExternalIterWithContext", "p.(*DB).getInternal", "p.(*Iterator).Close")
+	// C01.O1 (shared): view before seqnum
+	viewBeforeSeqNum(c, "C04.O1")
+}
+
+// runC04Pairing: read-state / version reference pairing (shared with C39, C37, C47).
+func runC04Pairing(c *Ctx) {
 	rsSpec := PairSpec{Rule: "C04.P1", What: "read state pinned by loadReadState/ref is released or owned", Release: []string{"unref", "unrefLocked"}}
 	n := acquireSites(c, CallTo("p.(*DB).loadReadState"), modPath, func(fn *ssa.Function, call *ssa.Call) {
 		c.Pairing(rsSpec, fn, call, call)
@@ -66,13 +78,6 @@ func runC04(c *Ctx) {
 	if fn := c.Fn("C04.P3", "p.(*EventuallyFileOnlySnapshot).transitionToFileOnlySnapshot"); fn != nil {
 		c.ParamDisposed(PairSpec{Rule: "C04.P3", What: "version reference handed to transitionToFileOnlySnapshot is stored or released on every path", Release: []string{"Unref", "UnrefLocked"}}, fn, "vers")
 	}
-	// C04.W1: view fields written only at construction / clone / close
-	c.Who("C04.W1", StoreTo(c.Field("C04.W1", "p.Iterator.seqNum")), "Iterator.seqNum fixed at construction",
-		"p.(*DB).newIter", "p.(*Iterator).CloneWithContext", "p.NewExternalIterWithContext", "p.(*DB).getInternal", "p.finishInitializingExternal", "p.(*Iterator).Close")
-	c.Who("C04.W1", Or(StoreTo(c.Field("C04.W1", "p.Iterator.readState")), StoreTo(c.Field("C04.W1", "p.Iterator.version"))), "Iterator's pinned view fixed at construction",
-		"p.(*DB).newIter", "p.(*Iterator).CloneWithContext", "p.NewExternalIterWithContext", "p.(*DB).getInternal", "p.(*Iterator).Close")
-	// C01.O1 (shared): view before seqnum
-	viewBeforeSeqNum(c, "C04.O1")
 }
 
 // viewBeforeSeqNum: in the read entry points the view is pinned before the
